@@ -167,6 +167,26 @@ func (g *c12gen) add(prefix, ctx, body string, run bool, class string) {
 		Meta:   map[string]string{"class": class},
 	})
 	g.st.Counts["c12_"+class+"_"+ctx]++
+	// every third body also after unrelated, accepted process bodies that give the names it uses other types
+	if g.n%3 == 0 {
+		pre := c12Preludes[(g.n/3)%len(c12Preludes)]
+		g.cases = append(g.cases, Case{
+			ID:     fmt.Sprintf("%s%d.after", prefix, g.n),
+			Op:     "proc",
+			Fields: []string{ctx, hx(body), procEnv(ctx), r, class, hx(pre)},
+			Meta:   map[string]string{"class": class},
+		})
+		g.st.Counts["c12_after_other_bodies"]++
+	}
+}
+
+// accepted definitions placed before the body under test; they assign the names the generated bodies use
+// (u: unknown name, x, y, acc, i) values of other types
+var c12Preludes = []string{
+	"set f0 to transform set u to 1 set x to true set y to 2 return 'k' end",
+	"set p0 to pattern 'Y' begin set u to 2 set x to 3 set acc to true return true end",
+	"set f0 to transform set u to true set i to 'q' return i end\nset f1 to transform set x to 'w' set u to 5 return x end",
+	"set p0 to pattern 'Y' begin set u to 'z' set x to 1 return x == 1 end\nset f0 to transform set u to 7 return u + 1 end",
 }
 
 // random statement list over random expression trees (typed or not) of depth <= 2
